@@ -253,7 +253,9 @@ def c20(ctx):
         rows.sort(key=lambda r: json.dumps(r["case"], sort_keys=True))
         # (c) real servers run in the background while the in-process cases are played
         servers = [{"tag": "namesync", "user": "www-data", "group": "www-data", "uid": 33, "gid": 33,
-                    "initgroups": False, "worker_class": "sync"}]
+                    "initgroups": False, "worker_class": "sync"},
+                   {"tag": "badhup", "user": "www-data", "group": "www-data", "uid": 33, "gid": 33,
+                    "initgroups": False, "worker_class": "sync", "badhup": True}]
         if not ctx.quick:
             servers += [
                 {"tag": "initsync", "user": "www-data", "group": "www-data", "uid": 33, "gid": 33,
